@@ -8,27 +8,26 @@ open ESV ESV.Beh
 
 /-! ### `trCases` in normal form -/
 
-theorem trStmts_nil (fuel : Nat) (env : Src.Env) (k : Nat) (b : Src.B) : Src.trStmts fuel [] env .nil k b = (b, k) := by
+theorem trStmts_nil (fuel : Nat) (sm : List Src.Macro) (env : Src.Env) (k : Nat) (b : Src.B) : Src.trStmts fuel sm env .nil k b = (b, k) := by
   rw [Src.trStmts]
 
-theorem trCases_nil (fuel : Nat) (env : Src.Env) (k nt : Nat) (b : Src.B) : Src.trCases fuel [] env .nil k nt b = (b, k, nt, none) := by
+theorem trCases_nil (fuel : Nat) (sm : List Src.Macro) (env : Src.Env) (k nt : Nat) (b : Src.B) : Src.trCases fuel sm env .nil k nt b = (b, k, nt, none) := by
   rw [Src.trCases]
 
-theorem trCases_default (fuel : Nat) (env : Src.Env) (t : Ev) (body : Src.Stmts) (r : Src.Cases) (k nt : Nat) (b : Src.B)
-    {R : Src.B × Nat × Nat × Option Nat} (hR : Src.trCases fuel [] env r k nt b = R) {Bd : Src.B × Nat}
-    (hB : Src.trStmts fuel [] env body R.2.1 R.1 = Bd) :
-    Src.trCases fuel [] env (.cons true t body r) k nt b = (Bd.1, Bd.2, R.2.2.1, some Bd.2) := by
+theorem trCases_default (fuel : Nat) (sm : List Src.Macro) (env : Src.Env) (t : Ev) (body : Src.Stmts) (r : Src.Cases) (k nt : Nat) (b : Src.B)
+    {R : Src.B × Nat × Nat × Option Nat} (hR : Src.trCases fuel sm env r k nt b = R) {Bd : Src.B × Nat}
+    (hB : Src.trStmts fuel sm env body R.2.1 R.1 = Bd) :
+    Src.trCases fuel sm env (.cons true t body r) k nt b = (Bd.1, Bd.2, R.2.2.1, some Bd.2) := by
   subst hR hB
   rw [Src.trCases]; rfl
 
-theorem trCases_case (fuel : Nat) (env : Src.Env) (he : env.subst = []) (t : Ev) (body : Src.Stmts) (r : Src.Cases) (k nt : Nat) (b : Src.B)
-    {R : Src.B × Nat × Nat × Option Nat} (hR : Src.trCases fuel [] env r k nt b = R) {Bd : Src.B × Nat}
-    (hB : Src.trStmts fuel [] env body R.2.1 R.1 = Bd) :
-    Src.trCases fuel [] env (.cons false t body r) k nt b =
-      ((Bd.1.push (.test t Bd.2 R.2.2.1)).1, Bd.2, (tbl Bd.1).length, R.2.2.2) := by
+theorem trCases_case (fuel : Nat) (sm : List Src.Macro) (env : Src.Env) (t : Ev) (body : Src.Stmts) (r : Src.Cases) (k nt : Nat) (b : Src.B)
+    {R : Src.B × Nat × Nat × Option Nat} (hR : Src.trCases fuel sm env r k nt b = R) {Bd : Src.B × Nat}
+    (hB : Src.trStmts fuel sm env body R.2.1 R.1 = Bd) :
+    Src.trCases fuel sm env (.cons false t body r) k nt b =
+      ((Bd.1.push (.test (Src.substEv env.subst t) Bd.2 R.2.2.1)).1, Bd.2, (tbl Bd.1).length, R.2.2.2) := by
   subst hR hB
-  have e : Src.substEv env.subst t = t := by rw [he, substEv_nil]
-  rw [Src.trCases]; simp only [e]; rfl
+  rw [Src.trCases]; rfl
 
 /-! ### cases waiting for a block -/
 
@@ -36,6 +35,10 @@ theorem trCases_case (fuel : Nat) (env : Src.Env) (he : env.subst = []) (t : Ev)
 def brkEnv (env : Src.Env) (k : Nat) : Src.Env := { env with brk := some k }
 
 theorem plainEnv_brkEnv {cx : Cx} {env : Src.Env} (he : EnvOK cx env) (k : Nat) : EnvOK cx (brkEnv env k) := ⟨he.1, he.2, he.3⟩
+
+/-- the events of the labelled side (parameters substituted by the copy) are the events of the source under `sb` -/
+def EvOK (cx : Cx) (sb : List (String × Beh.Param)) : Prop :=
+  ∀ (n : String) (ps : List ESV.Param), (⟨n, convParams (ps.map cx.cp.sub)⟩ : Ev) = Src.substEv sb ⟨n, convParams ps⟩
 
 /-- the handlers waiting for a block are cases without a body -/
 def wSrc : List (Option BP) → Src.Cases → Src.Cases
@@ -60,16 +63,16 @@ structure WaitSem (cx : Cx) (fuel : Nat) (sL : Nat) (w : List (Option BP)) (hs d
   nonone : NoNone hs
   dsome : hasNone w = true → ∃ o, d1 = [.ljump ⟨o, Gen.op_jump, []⟩ (some sL)]
   dnone : hasNone w = false → d1 = dIn
-  sem : ∀ (envC : Src.Env), envC.subst = [] → ∀ (k nt : Nat) (SC0 : Src.Cases) (b : Src.B),
-    Pushes (Src.trCases fuel [] envC SC0 k nt b).1 (Src.trCases fuel [] envC (wSrc w SC0) k nt b).1 ∧
-    (Src.trCases fuel [] envC (wSrc w SC0) k nt b).2.1 = (Src.trCases fuel [] envC SC0 k nt b).2.1 ∧
-    (Src.trCases fuel [] envC (wSrc w SC0) k nt b).2.2.2 =
-      (if hasNone w then some (Src.trCases fuel [] envC SC0 k nt b).2.1 else (Src.trCases fuel [] envC SC0 k nt b).2.2.2) ∧
-    ∀ r pH, Placed cx.rs r pH hs →
-      AgreeOn cx.N cx.Z (Src.trCases fuel [] envC SC0 k nt b).1 (Src.trCases fuel [] envC (wSrc w SC0) k nt b).1 → ∀ m j,
-      EE cx m (target cx.rs sL) (Src.trCases fuel [] envC SC0 k nt b).2.1 →
-      R2 cx m j ⟨r, pH + hs.length⟩ (Src.trCases fuel [] envC SC0 k nt b).2.2.1 →
-      R2 cx m j ⟨r, pH⟩ (Src.trCases fuel [] envC (wSrc w SC0) k nt b).2.2.1
+  sem : ∀ (envC : Src.Env), EvOK cx envC.subst → ∀ (k nt : Nat) (SC0 : Src.Cases) (b : Src.B),
+    Pushes (Src.trCases fuel cx.sm envC SC0 k nt b).1 (Src.trCases fuel cx.sm envC (wSrc w SC0) k nt b).1 ∧
+    (Src.trCases fuel cx.sm envC (wSrc w SC0) k nt b).2.1 = (Src.trCases fuel cx.sm envC SC0 k nt b).2.1 ∧
+    (Src.trCases fuel cx.sm envC (wSrc w SC0) k nt b).2.2.2 =
+      (if hasNone w then some (Src.trCases fuel cx.sm envC SC0 k nt b).2.1 else (Src.trCases fuel cx.sm envC SC0 k nt b).2.2.2) ∧
+    ∀ r pH, Placed cx.cp cx.rs r pH hs →
+      AgreeOn cx.N cx.Z (Src.trCases fuel cx.sm envC SC0 k nt b).1 (Src.trCases fuel cx.sm envC (wSrc w SC0) k nt b).1 → ∀ m j,
+      EE cx m (target cx.rs (cx.cp.σ sL)) (Src.trCases fuel cx.sm envC SC0 k nt b).2.1 →
+      R2 cx m j ⟨r, pH + hs.length⟩ (Src.trCases fuel cx.sm envC SC0 k nt b).2.2.1 →
+      R2 cx m j ⟨r, pH⟩ (Src.trCases fuel cx.sm envC (wSrc w SC0) k nt b).2.2.1
 
 theorem waiting_sem (cx : Cx) (fuel : Nat) (sL : Nat) : ∀ (w : List (Option BP)) (dops : List LItem) (s : St) (hs dops' : List LItem) (s' : St),
     WaitOK w → buildWaiting sL defJmpBP w dops s = .ok ((hs, dops'), s') → SameStk s s' ∧ WaitSem cx fuel sL w hs dops dops' := by
@@ -97,7 +100,7 @@ theorem waiting_sem (cx : Cx) (fuel : Nat) (sL : Nat) : ∀ (w : List (Option BP
         | false => exact ⟨n, ws.dnone hn⟩
       · intro envC he k nt SC0 b
         obtain ⟨g, eb, _, c⟩ := ws.sem envC he k nt SC0 b
-        have htr := trCases_default fuel envC ⟨"", []⟩ .nil (wSrc w SC0) k nt b rfl (trStmts_nil fuel envC _ _)
+        have htr := trCases_default fuel cx.sm envC ⟨"", []⟩ .nil (wSrc w SC0) k nt b rfl (trStmts_nil fuel cx.sm envC _ _)
         simp only [wSrc, htr, hasNone, if_true]
         exact ⟨g, eb, by rw [eb], c⟩
     | some bp =>
@@ -113,21 +116,22 @@ theorem waiting_sem (cx : Cx) (fuel : Nat) (sL : Nat) : ∀ (w : List (Option BP
         fun h => ws.dnone (by simpa [hasNone] using h), ?_⟩
       intro envC he k nt SC0 b
       obtain ⟨g, eb, ed, c⟩ := ws.sem envC he k nt SC0 b
-      have htr := trCases_case fuel envC he ⟨bp.name, convParams bp.params⟩ .nil (wSrc w SC0) k nt b rfl (trStmts_nil fuel envC _ _)
+      have htr := trCases_case fuel cx.sm envC ⟨bp.name, convParams bp.params⟩ .nil (wSrc w SC0) k nt b rfl (trStmts_nil fuel cx.sm envC _ _)
       simp only [wSrc, htr, hasNone]
       refine ⟨g.trans (Pushes.push _ _), eb, ed, fun r pH hp hag m j hT hrest => ?_⟩
-      have hit : itemAt cx.rs ⟨r, pH⟩ = some (.ljump ⟨n, bp.name, bp.params⟩ (some sL)) := by simpa using hp.item (d := 0) rfl
+      have hit : ItemC cx.cp cx.rs ⟨r, pH⟩ (.ljump ⟨n, bp.name, bp.params⟩ (some sL)) := by simpa using hp.item (d := 0) rfl
       have hstep := lab_test hit (isTest_not_jump _ htest) htest
-      have hpR : Placed cx.rs r (pH + 1) hs0 := by
+      simp only [he bp.name bp.params] at hstep
+      have hpR : Placed cx.cp cx.rs r (pH + 1) hs0 := by
         have := Placed.right (a := [LItem.ljump ⟨n, bp.name, bp.params⟩ (some sL)]) (b := hs0) hp
         simpa using this
       have agR := hag.sub_grow (Grow.refl _) (Grow.push _ _)
-      have hN : cx.N[(tbl (Src.trCases fuel [] envC (wSrc w SC0) k nt b).1).length]? =
-          some (.test ⟨bp.name, convParams bp.params⟩ (Src.trCases fuel [] envC (wSrc w SC0) k nt b).2.1
-            (Src.trCases fuel [] envC (wSrc w SC0) k nt b).2.2.1) := by
-        obtain ⟨a1, a2⟩ := tbl_push (Src.trCases fuel [] envC (wSrc w SC0) k nt b).1
-          (.test ⟨bp.name, convParams bp.params⟩ (Src.trCases fuel [] envC (wSrc w SC0) k nt b).2.1
-            (Src.trCases fuel [] envC (wSrc w SC0) k nt b).2.2.1)
+      have hN : cx.N[(tbl (Src.trCases fuel cx.sm envC (wSrc w SC0) k nt b).1).length]? =
+          some (.test (Src.substEv envC.subst ⟨bp.name, convParams bp.params⟩) (Src.trCases fuel cx.sm envC (wSrc w SC0) k nt b).2.1
+            (Src.trCases fuel cx.sm envC (wSrc w SC0) k nt b).2.2.1) := by
+        obtain ⟨a1, a2⟩ := tbl_push (Src.trCases fuel cx.sm envC (wSrc w SC0) k nt b).1
+          (.test (Src.substEv envC.subst ⟨bp.name, convParams bp.params⟩) (Src.trCases fuel cx.sm envC (wSrc w SC0) k nt b).2.1
+            (Src.trCases fuel cx.sm envC (wSrc w SC0) k nt b).2.2.1)
         rw [hag.2 _ g.len (by rw [a1]; simp), a1]
         simp
       have hrest' := c r (pH + 1) hpR agR m j hT (by
